@@ -75,6 +75,8 @@ def plan(tier, seed):
                 shards.append(("pipe_cubic", tier, gi, 2 if tier == "quick" else 3, omfloat))
         if gi % 8 in (1, 6):
             shards.append(("pipe_legacy", tier, gi, 2, gi % 8 == 1))
+        if gi % 8 in (0, 3, 5):
+            shards.append(("pipe_subgrain", tier, gi, 2 + (gi % 8 == 3), gi % 8 != 5))
         if gi % 8 in (2, 7):
             for nt in (4, 16) if tier == "quick" else (2, 3, 4, 7, 16):
                 shards.append(("pipe_frames%d" % nt, tier, gi, 3, gi % 8 == 2))
@@ -166,7 +168,7 @@ def _makemap_repeated(opts, k):
 
 
 def run_case(sh, mods, pars, ng, omfloat, case, passes=3, with_translation=True, cubic=False, repeat=0, unlisted=0, cellscale=1.0, wrap360=False,
-             legacy=False, frame_threads=0):
+             legacy=False, frame_threads=0, subgrain=False):
     tr, gm, P, cf_mod, makemap_mod = mods
     wd = os.path.join(WORK, "c09_%d" % os.getpid())
     shutil.rmtree(wd, ignore_errors=True)
@@ -177,6 +179,11 @@ def run_case(sh, mods, pars, ng, omfloat, case, passes=3, with_translation=True,
             pars = dict(pars, cell__a=CELL[0] * cellscale, cell__b=CELL[1] * cellscale, cell__c=CELL[2] * cellscale, distance=pars["distance"] * cellscale)
         cell_ = [pars["cell__a"], pars["cell__b"], pars["cell__c"], pars["cell_alpha"], pars["cell_beta"], pars["cell_gamma"]]
         truth = true_grains(ng, seed_of(), strained=not cubic, cell=cell_)
+        if subgrain:
+            # the second grain is a sub-grain of the first (0.6 degrees away, somewhere else in the sample): most low-order peaks of
+            # either are within the tolerance of BOTH lattices and belong to the one they fit better
+            u0, _ = truth[0]
+            truth = [truth[0], (np.dot(u0, O.rotation_from_axis_angle((1, 2, 3), 0.6).T), truth[1][1])] + truth[2:]
         peaks = simulate(tr, pars, truth, wrap360=wrap360)
         start = perturbed(truth)
         if unlisted:
@@ -324,11 +331,11 @@ def run_shard(desc):
             "cubic_constraint": kind == "pipe_cubic", "refinepositions_calls_on_one_object": int(kind[11:]) if kind.startswith("pipe_repeat") else 0,
             "grains_not_in_the_grain_file": 1 if kind == "pipe_missing" else 0, "cell_scale": 30.0 if kind == "pipe_bigcell" else 1.0,
             "omega_written_0_to_360": kind == "pipe_wrap360", "legacy_column_names": kind == "pipe_legacy",
-            "frame_pairs_threads": int(kind[11:]) if kind.startswith("pipe_frames") else 0,
+            "frame_pairs_threads": int(kind[11:]) if kind.startswith("pipe_frames") else 0, "second_grain_is_a_subgrain_of_the_first": kind == "pipe_subgrain",
             "pars": {k: v for k, v in pars.items() if not k.startswith("cell")}}
     info = run_case(sh, _mods(), pars, ng, omfloat, case, with_translation=(kind != "pipe_nostart"), cubic=(kind == "pipe_cubic"),
                     repeat=case["refinepositions_calls_on_one_object"], unlisted=case["grains_not_in_the_grain_file"], cellscale=case["cell_scale"], wrap360=case["omega_written_0_to_360"],
-                    legacy=case["legacy_column_names"], frame_threads=case["frame_pairs_threads"])
+                    legacy=case["legacy_column_names"], frame_threads=case["frame_pairs_threads"], subgrain=case["second_grain_is_a_subgrain_of_the_first"])
     sh.sample(dict(case, **{k: v for k, v in (info or {}).items()}), limit=1)
     return sh
 
@@ -343,5 +350,6 @@ def replay(case):
     run_case(sh, _mods(), pars, case["ngrains"], case["omega_float"], case, with_translation=case.get("start_has_translations", True),
              cubic=case.get("cubic_constraint", False), repeat=case.get("refinepositions_calls_on_one_object", 0),
              unlisted=case.get("grains_not_in_the_grain_file", 0), cellscale=case.get("cell_scale", 1.0), wrap360=case.get("omega_written_0_to_360", False),
-             legacy=case.get("legacy_column_names", False), frame_threads=case.get("frame_pairs_threads", 0))
+             legacy=case.get("legacy_column_names", False), frame_threads=case.get("frame_pairs_threads", 0),
+             subgrain=case.get("second_grain_is_a_subgrain_of_the_first", False))
     return (not sh.violations), {"violations": sh.violations[:3]}
